@@ -88,6 +88,30 @@ CLAIMED = {
   "design_ref": "DESIGN.md §5 C15",
   "note": "clock_monotonic_partial assumes the host clock; tid counter wrap excluded (stated). Trusted: getentropy/clock_gettime/pthread_create per POSIX; tools/extract/gen_wasipath.py.",
  },
+ "C03": {
+  "technique": "Lean 4 simulation proof (translator model vs WebAssembly semantics, all bodies / nesting depths / fuel) + token-for-token correspondence of the translator model with the real w2c2 + e2e vs V8",
+  "text": "compile_sim_partial / func_sim_partial: for every function body the (strict) model of w2c2's single-pass translator accepts, every operand stack, locals and amount of fuel, when WebAssembly execution of block/loop/if/br/br_if/br_table/return/unreachable/select/drop/nop/local.*/const/numeric instructions finishes normally, by a branch (any depth, any stack height, with its carried value) or by a trap, the emitted C (slot variables, goto, labelled blocks, switch) finishes the same way with every operand in its slot and equal locals; whole functions return the same value, with parameters = arguments and declared locals zero. The model is tied to the real translator on every run: the rendered model output equals the real w2c2 output token by token for every function of thousands of generated modules in plain/-p/-m modes, and the compiled real output agrees with V8.",
+  "design_ref": "DESIGN.md §5 C03, §10",
+  "note": "Partial: globals and memory instructions are translated by the model (token tie) but their executions are outside the theorem; numeric instructions are abstract (arity/type only) in C03 and proved row by row in C01/C02. Trusted: Model.Sim's source semantics = the specification (tied to V8 by the xrun/mrun correspondence and e2e); the hand-written translator model only through emit-tokens.",
+ },
+ "C04": {
+  "technique": "Lean 4 module-level simulation (function index space, recursion to any depth, host imports, call_indirect) + element-segment initialisation theorem + emit-tokens / e2e host-trace correspondence",
+  "text": "module_sim_partial: for every module the model translates, every call-depth bound, function index and arguments, if the specification's invocation returns or traps the emitted C does the same — calls pop exactly the callee's parameters in declaration order and push its result (instr_step call/call_indirect), imports first in the index space, call_indirect through initialised, correctly typed slots; elem_init_correct: InitTables leaves in every slot the function of the last covering segment. Tied by emit-tokens (call statements, TF casts, import names) and e2e against V8 with ordered host-call traces (argument bits, instance identity) and table dumps.",
+  "design_ref": "DESIGN.md §5 C04, §10",
+  "note": "Partial: callees are pure functions of their arguments in the model (memory/global effects by e2e only); module-level C text (InitTables, struct) is tied behaviourally (table dump), not token by token.",
+ },
+ "C09": {
+  "technique": "Lean 4 proofs of the worker pool (all interleavings, spurious wake-ups), file partition and static/dynamic split + scheduled real w2c2 -t N replay + option-matrix correspondence",
+  "text": "pool_exactly_once / pool_deadlock_free / pool_no_torn_task: the 36-program-counter model of the producer/worker hand-off in c.c delivers every task index exactly once, intact, and never deadlocks, for any number of workers, tasks and any interleaving; partition_exact: file ranges cover [0,n) exactly; split_static_sound. Real `w2c2 -t N` runs under the pthread-interposing scheduler are replayed token by token by the model; the option matrix {-p}x{-m}x{-f}x{-t}x{-r} is checked on real outputs: each function once, texts equal to single-file output, byte-identical across -t and runs, every file compiles alone, selected combinations executed against V8.",
+  "design_ref": "DESIGN.md §5 C09, §10",
+  "note": "Option-independence of the emitted program is tied by the matrix (texts equal modulo formatting), not yet a Lean theorem over Render. OPEN finding: -m collision with an export literally named f<N>. Trusted: pthread semantics as modelled in Model.Pool.",
+ },
+ "C17": {
+  "technique": "Lean 4 invariant proofs over the futex state machine (27 program counters of futex.c, any threads/addresses/bucket counts, spurious wake-ups, timeouts) + scheduled real futex.c correspondence under ASan/UBSan",
+  "text": "futex_inv, no_lost_wakeup, notify_count_exact, wait_returns, futex_no_uaf, futex_deadlock_free, wait_effective_address: by induction over Reach for every interleaving. The real futex.c/list.c/map.c run under the deterministic scheduler on thousands of schedules (incl. colliding buckets, spurious wake-ups, timeouts) and the model replays the executed schedule; the wait/notify emission (static offset) is tied by token comparison and an e2e offset test.",
+  "design_ref": "DESIGN.md §5 C17, §10",
+  "note": "The doubly linked lists of list.c are abstracted to id lists (tied by the ASan correspondence only). Trusted: pthread mutex/condvar semantics as in Model.Threads.",
+ },
 }
 
 NOT_YET = {f"C{n:02d}": "check under construction in this round (model/theorems not yet committed); see DESIGN.md §8 build order" for n in range(1, 21)}
